@@ -132,6 +132,7 @@ func (s *Server) cmdSetHook(msg *Message) (
 		channel:   channel,
 		cond:      sync.NewCond(&sync.Mutex{}),
 		counter:   &s.statsTotalMsgsSent,
+		done:      make(chan struct{}),
 	}
 	if expiresSet {
 		hook.expires =
@@ -215,7 +216,9 @@ func (s *Server) cmdSetHook(msg *Message) (
 		}
 	}
 
-	hook.Open() // Opens a goroutine to notify the hook
+	// Opens a goroutine to notify the hook. A hook that replaces a previous
+	// definition waits until the manager of that definition has ended.
+	hook.OpenAfter(prevHook)
 	if !hook.expires.IsZero() {
 		s.hookExpires.Set(hook)
 	}
@@ -488,6 +491,7 @@ type Hook struct {
 	expires    time.Time
 	counter    *atomic.Int64 // counter that grows when a message was sent
 	sig        int
+	done       chan struct{} // closed when the manager function has ended
 }
 
 // Expires returns when the hook expires. Required by the expire.Item interface.
@@ -564,6 +568,22 @@ func (h *Hook) Open() {
 	go h.manager()
 }
 
+// OpenAfter opens the hook once the manager of the previous definition of the
+// same hook, if any, has ended. That manager may still be sending: two
+// managers working on the queue entries of one hook name would send them
+// concurrently, out of order, and entries that the old manager re-inserts after
+// a failed send would not be noticed by the new one until its next signal.
+func (h *Hook) OpenAfter(prev *Hook) {
+	if h.channel || prev == nil || prev.channel || prev.done == nil {
+		h.Open()
+		return
+	}
+	go func() {
+		<-prev.done
+		h.Open()
+	}()
+}
+
 // Close closed the hook and stop the manager function
 func (h *Hook) Close() {
 	if h.channel {
@@ -595,6 +615,9 @@ func (h *Hook) Signal() {
 // the manager is a forever loop that calls proc whenever there's a signal.
 // it ends when the "closed" flag is set.
 func (h *Hook) manager() {
+	if h.done != nil {
+		defer close(h.done)
+	}
 	// lock the hook to waiting on signals
 	h.cond.L.Lock()
 	defer h.cond.L.Unlock()
@@ -615,8 +638,9 @@ func (h *Hook) manager() {
 			time.Sleep(time.Second / 2)
 			continue
 		}
-		if sig != h.sig {
-			// there was another incoming signal
+		if sig != h.sig || h.closed {
+			// there was another incoming signal, or the hook was closed
+			// while the manager was sending
 			continue
 		}
 		// wait on signal
